@@ -315,7 +315,7 @@ func c04Generate(rng *rand.Rand) c04Prog {
 
 func checkC04(c *Ctx) error {
 	r := c.R
-	r.Rule = "generated programs over [N]T (N 2-6, all integer element widths) whose index is a literal, a const, a let-bound variable reassigned between uses, assigned in one branch / match arm, loop-carried, incremented, modified through &' or by a closure, computed by index arithmetic or returned by a function, uses at points where no sound analysis knows the index; plus a directed matrix {20 containers that modify the index: plain, if/else/else-if, match arm/default, block, &' call, catch handler, closure, inner loops, compound, ++, nestings, assignment in one branch while the other branch leaves by continue/break/return} x {6 use positions: after, loop-carried before/after in while/for, in a later branch, in a later closure} x {modification taken, not taken}; canary locals around the array; reference interpreter with dynamic index semantics. Allowed: compile-time rejection with T0028/T0009 (never for literal/const in-range programs), or output == reference, or a panic exactly where the reference panics. non-trivial = a distinct program whose verdict was decided (accepted-and-equal, or rejected for the permitted reason)"
+	r.Rule = "generated programs over [N]T (N 2-6, all integer element widths) whose index is a literal, a const, a let-bound variable reassigned between uses, assigned in one branch / match arm, loop-carried, incremented, modified through &' or by a closure, computed by index arithmetic or returned by a function, uses at points where no sound analysis knows the index; plus a directed matrix {25 containers that modify the index (also: assignment in one branch and the use in the sibling branch or a later match arm): plain, if/else/else-if, match arm/default, block, &' call, catch handler, closure, inner loops, compound, ++, nestings, assignment in one branch while the other branch leaves by continue/break/return} x {6 use positions: after, loop-carried before/after in while/for, in a later branch, in a later closure} x {modification taken, not taken} x {index known / unknown before the container}; canary locals around the array; reference interpreter with dynamic index semantics. Allowed: compile-time rejection with T0028/T0009 (never for literal/const in-range programs), or output == reference, or a panic exactly where the reference panics. non-trivial = a distinct program whose verdict was decided (accepted-and-equal, or rejected for the permitted reason)"
 	r.Assumptions = []string{"a rejection is attributed to the array rule only if every error diagnostic is T0028 or T0009"}
 	n := c.N(60, 1500)
 	runProbes(c, "C04", core.Native)
@@ -392,7 +392,7 @@ func checkC04(c *Ctx) error {
 }
 
 // c04Containers are the syntactic places in which the index variable is modified.
-var c04Containers = []string{"plain", "if-then", "if-else", "else-if", "match-arm", "match-default", "block", "mutref-call", "catch-handler", "closure", "inner-while", "inner-for", "compound", "incdec", "match-in-if", "if-in-match", "if-assign-else-jump", "if-jump-else-assign", "match-assign-default-jump", "match-jump-default-assign"}
+var c04Containers = []string{"plain", "if-then", "if-else", "else-if", "match-arm", "match-default", "block", "mutref-call", "catch-handler", "closure", "inner-while", "inner-for", "compound", "incdec", "match-in-if", "if-in-match", "if-assign-else-jump", "if-jump-else-assign", "match-assign-default-jump", "match-jump-default-assign", "if-assign-else-use", "if-use-else-assign", "arm-assign-later-arm-use", "arm-assign-default-use", "else-if-assign-else-use"}
 
 // c04Wrappers are the positions of the use relative to the modification.
 var c04Wrappers = []string{"straight-use-after", "while-use-before", "for-use-before", "while-use-after", "use-in-branch-after", "use-in-closure-after"}
@@ -400,7 +400,7 @@ var c04Wrappers = []string{"straight-use-after", "while-use-before", "for-use-be
 // c04MatrixProgram builds one directed program: index variable i starts at a known constant, a
 // container modifies it (when the opaque selector is 0), and the array is read through i at a
 // position where only a flow analysis that accounts for that container gets the value right.
-func c04MatrixProgram(container, wrapper string, selVal int64, variant int) c04Prog {
+func c04MatrixProgram(container, wrapper string, selVal int64, variant int, opaqueInit bool) c04Prog {
 	I32, I64 := gen.I32, gen.I64
 	lit := func(t *gen.Type, v int64) *gen.Lit { return &gen.Lit{T: t, I: gen.Norm(t, v)} }
 	n := 4
@@ -432,7 +432,11 @@ func c04MatrixProgram(container, wrapper string, selVal int64, variant int) c04P
 		&gen.If{Cond: &gen.Bin{Op: "==", L: &gen.Var{Name: "v", T: I32}, R: lit(I32, 0), T: gen.TBool}, Then: []gen.Stmt{&gen.ReturnErr{Msg: "zero"}}},
 		&gen.Return{X: &gen.Var{Name: "v", T: I32}}}}
 	prog.Funcs = append(prog.Funcs, opq)
-	main = append(main, &gen.Let{Name: "i", T: I32, Init: lit(I32, v1)})
+	if opaqueInit { // the index has no compile-time-known value before the container
+		main = append(main, &gen.Let{Name: "i", T: I32, Init: &gen.Call{Fn: opq, Args: []gen.Expr{lit(I32, v1)}}, Annot: true})
+	} else {
+		main = append(main, &gen.Let{Name: "i", T: I32, Init: lit(I32, v1)})
+	}
 	main = append(main, &gen.Let{Name: "sel", T: I32, Init: &gen.Call{Fn: opq, Args: []gen.Expr{lit(I32, selVal)}}, Annot: true})
 	sel := &gen.Var{Name: "sel", T: I32}
 	selIs := func(v int64) gen.Expr { return &gen.Bin{Op: "==", L: sel, R: lit(I32, v), T: gen.TBool} }
@@ -496,6 +500,16 @@ func c04MatrixProgram(container, wrapper string, selVal int64, variant int) c04P
 		mod = []gen.Stmt{&gen.Match{Subj: sel, HasDef: true, Arms: []gen.MatchArm{{Pat: lit(I32, 0), Body: []gen.Stmt{set()}}}, Default: []gen.Stmt{jump()}}}
 	case "match-jump-default-assign":
 		mod = []gen.Stmt{&gen.Match{Subj: sel, HasDef: true, Arms: []gen.MatchArm{{Pat: lit(I32, 1), Body: []gen.Stmt{jump()}}}, Default: []gen.Stmt{set()}}}
+	case "if-assign-else-use":
+		mod = []gen.Stmt{&gen.If{Cond: selIs(0), Then: []gen.Stmt{set()}, Else: readAt(i)}}
+	case "if-use-else-assign":
+		mod = []gen.Stmt{&gen.If{Cond: selIs(1), Then: readAt(i), Else: []gen.Stmt{set()}}}
+	case "arm-assign-later-arm-use":
+		mod = []gen.Stmt{&gen.Match{Subj: sel, HasDef: true, Arms: []gen.MatchArm{{Pat: lit(I32, 0), Body: []gen.Stmt{set()}}, {Pat: lit(I32, 2), Body: readAt(i)}}, Default: []gen.Stmt{}}}
+	case "arm-assign-default-use":
+		mod = []gen.Stmt{&gen.Match{Subj: sel, HasDef: true, Arms: []gen.MatchArm{{Pat: lit(I32, 0), Body: []gen.Stmt{set()}}}, Default: readAt(i)}}
+	case "else-if-assign-else-use":
+		mod = []gen.Stmt{&gen.If{Cond: selIs(1), Then: []gen.Stmt{&gen.Print{X: sel}}, Else: []gen.Stmt{&gen.If{Cond: selIs(0), Then: []gen.Stmt{set()}, Else: readAt(i)}}}}
 	case "if-in-match":
 		mod = []gen.Stmt{&gen.Match{Subj: sel, HasDef: true, Arms: []gen.MatchArm{{Pat: lit(I32, 0), Body: []gen.Stmt{&gen.If{Cond: selIs(0), Then: []gen.Stmt{set()}}}}}, Default: []gen.Stmt{}}}
 	}
@@ -505,7 +519,9 @@ func c04MatrixProgram(container, wrapper string, selVal int64, variant int) c04P
 	kLt := &gen.Bin{Op: "<", L: k, R: lit(I32, 2), T: gen.TBool}
 	switch wrapper {
 	case "straight-use-after":
-		main = append(main, readAt(i)...)
+		if !opaqueInit {
+			main = append(main, readAt(i)...)
+		}
 		main = append(main, mod...)
 		main = append(main, readAt(i)...)
 	case "while-use-before":
@@ -537,7 +553,11 @@ func c04MatrixProgram(container, wrapper string, selVal int64, variant int) c04P
 	}
 	main = append(main, &gen.Print{X: &gen.Var{Name: "c0", T: I64}}, &gen.Print{X: &gen.Var{Name: "c1", T: I64}})
 	prog.Main = main
-	return c04Prog{p: prog, scenario: "matrix:" + container + "/" + wrapper}
+	sc := "matrix:" + container + "/" + wrapper
+	if opaqueInit {
+		sc += "/index-unknown-before"
+	}
+	return c04Prog{p: prog, scenario: sc}
 }
 
 func c04Matrix() []c04Prog {
@@ -549,8 +569,16 @@ func c04Matrix() []c04Prog {
 				continue // two closures capturing one variable: open finding kf-C01-closure-nested (gated feature)
 			}
 			for _, s := range []int64{0, 2} {
-				out = append(out, c04MatrixProgram(co, w, s, v))
+				out = append(out, c04MatrixProgram(co, w, s, v, false))
 				v++
+			}
+			// the same with an index whose value is unknown before the container (only the positions
+			// in which the container itself can make it known)
+			if w == "straight-use-after" || w == "use-in-branch-after" || w == "while-use-after" {
+				for _, s := range []int64{0, 2} {
+					out = append(out, c04MatrixProgram(co, w, s, v, true))
+					v++
+				}
 			}
 		}
 	}
